@@ -95,7 +95,7 @@ CHUNK = 6
 def shards(tier):
     specs, leaf = spec_universe(tier)
     allspecs = leaf + specs
-    return [("specs", i, min(i + CHUNK, len(allspecs))) for i in range(0, len(allspecs), CHUNK)] + [("extra", "discriminator", 0)]
+    return [("specs", i, min(i + CHUNK, len(allspecs))) for i in range(0, len(allspecs), CHUNK)] + [("extra", "discriminator", 0), ("extra", "cast-keys", 0)]
 
 
 DISCRIMINATOR_SRC = '''
@@ -155,10 +155,74 @@ def _discriminator(acc):
                                          "except Exception as e:\n    print(type(e).__name__, e); sys.exit(1)"]) + "\n")
 
 
+CASTKEYS_SRC = '''
+class K(Schema):
+    __options__ = Options(cast_keyword_str=True, addition=True)
+    v: int = 0
+class KD(DataClass):
+    __options__ = Options(cast_keyword_str=True)
+    v: int = 0
+class Holder(Schema):
+    k: K = None
+    ks: List[K] = Field(default_factory=list)
+'''
+# mappings whose keys cannot be (or can only hostilely be) turned into str
+CASTKEYS_INPUTS = ["{1: 2}", "{'v': 1, 2: 3}", "{b'\\xff': 1}", "{b'name': 1}", "{(1, 2): 1}", "{None: 1}", "{1.5: 1}", "{BadStr(): 1}",
+                   "{BadRepr(): 1}", "{True: 1, 'v': '2'}", "{Color.RED: 1}", "{frozenset({1}): 2}", "{10**5000: 1}", "{'v': 1}"]
+CASTKEYS_OPTS = [{}, {"no_data_loss": True}, {"no_explicit_cast": True}, {"no_data_loss": True, "no_explicit_cast": True},
+                 {"collect_errors": True}, {"no_data_loss": True, "collect_errors": True}]
+
+
+def _castkeys(acc):
+    """data classes that cast their keys to str (cast_keyword_str): a key whose conversion fails is a parse error"""
+    from ..universe import _NS
+    env = dict(_NS)
+    env["__name__"] = "utmc.ns"
+    exec(CASTKEYS_SRC, env)
+    forms = {
+        "K.__from__": lambda x, o: env["K"].__from__(x, options=o),
+        "KD.__from__": lambda x, o: env["KD"].__from__(x, options=o),
+        "type_transform(x, K)": lambda x, o: env["type_transform"](x, env["K"], options=o),
+        "Holder(k=x)": lambda x, o: env["Holder"].__from__({"k": x}, options=o),
+        "Holder(ks=[x])": lambda x, o: env["Holder"].__from__({"ks": [x]}, options=o),
+    }
+    for fname, fn in forms.items():
+        for oi, opts in enumerate(CASTKEYS_OPTS):
+            # the strictness flags reach a data class through the options it is parsed with
+            o = env["Options"](cast_keyword_str=True, **opts)
+            for vx in CASTKEYS_INPUTS:
+                acc.states += 1
+                acc.transitions += 1
+                acc.evaluations += 1
+                st, payload = e1.call_guarded(lambda: fn(ev(vx), o), wall_s=1.0, step_budget=400_000)
+                kind, payload = e1.classify(st, payload)
+                acc.outcomes[kind] += 1
+                acc.nontrivial_add((fname, oi, vx))
+                if acc.states % 23 == 0:
+                    acc.sample(dict(decl=fname + " (cast_keyword_str)", options=opts, input=vx, outcome=kind))
+                if kind in ("value", "perr"):
+                    continue
+                if kind == "nonterm":
+                    fp = f"C04|nonterm|cast-keys|{fname}"
+                    msg = f"no result within {payload} line events"
+                else:
+                    site = e1.innermost_utype_frame(payload)
+                    fp = f"C04|escape|{type(payload).__name__}|{site}|cast-keys|{fname}"
+                    msg = f"{type(payload).__name__}: {short(payload, 100)} (innermost utype frame {site})"
+                acc.violation(fp, f"{fname} (cast_keyword_str) opts={opts} input={vx}: {msg}",
+                              "\n".join(["import sys", "sys.path.insert(0, '/verif')", "from utmc.ns import *", "from utmc.props import c04",
+                                         "acc = c04.Acc(); c04._castkeys(acc)",
+                                         f"hits = [fp for fp in acc.violations if fp.endswith({('cast-keys|' + fname)!r})]",
+                                         "for fp in hits: print(fp, acc.violations[fp][0].summary)", "sys.exit(1 if hits else 0)"]) + "\n")
+
+
 def run_shard(shard, tier):
     if shard[0] == "extra":
         acc = Acc()
-        _discriminator(acc)
+        if shard[1] == "discriminator":
+            _discriminator(acc)
+        else:
+            _castkeys(acc)
         return acc
     _, lo, hi = shard
     specs, leaf = spec_universe(tier)
